@@ -38,6 +38,7 @@ def run(ctx: Ctx, rep: Report) -> None:
     rep.rule("C19-R2", "the trap's source is the datagram's origin on every path to the callback; the datagram's bytes are what is decoded", floor=2)
     rep.rule("C19-R3", "the callback is scheduled exactly once, after a successful decode, with the decoded trap", floor=1)
     rep.rule("C19-R4", "the receiver protocol forwards every datagram with its origin and never closes the transport", floor=3)
+    rep.rule("C19-R7", "only decoded notification PDUs reach the callback: the lazy PDU is evaluated and its class checked before the callback is scheduled", floor=1)
     rep.rule("C19-R6", "the trap's bindings are read from the datagram in the order and at the positions the encoders and the RFCs use (shared with C06-R3)", floor=5)
     rep.rule("C19-R5", "community check through the community MPM; pythonic trap view reads the right bindings", floor=5)
     rep.assumptions += [
@@ -64,6 +65,22 @@ def run(ctx: Ctx, rep: Report) -> None:
         dec = bound_method_as_closure(ctx, reg, built) if built is not None else None
     if dec is None:
         raise AnalysisError("register_trap_callback: the datagram callback given to listen() is not a local closure")
+    # a thin wrapper (counters, logging) around the closure that does the work: follow it when every normal path of the
+    # wrapper hands its datagram to that closure
+    for _ in range(2):
+        has_create = any(isinstance(n, ast.Call) and ctx.r.call_resolves_to(dec, n, "puresnmp.plugins.mpm:create") for n in own_nodes(dec.node))
+        if has_create or not dec.params:
+            break
+        inner_calls = [n for n in own_nodes(dec.node) if isinstance(n, ast.Call) and isinstance(n.func, ast.Name) and n.func.id in reg.nested and n.func.id != dec.name and len(n.args) == 1 and isinstance(n.args[0], ast.Name) and n.args[0].id == dec.params[0]]
+        targets = {n.func.id for n in inner_calls}
+        if len(targets) != 1:
+            break
+        wcfg = ctx.cfg(dec)
+        cnodes = [cfg_node_of(wcfg, n) for n in inner_calls]
+        cnodes = [n for n in cnodes if n is not None]
+        if not cnodes or not wcfg.must_pass(wcfg.entry, [wcfg.exit], cnodes):
+            break
+        dec = reg.nested[next(iter(targets))]
     packet = dec.params[0]
     user_cb = reg.params[0]
     creds_param = "credentials" if "credentials" in reg.params else None
@@ -226,7 +243,53 @@ def run(ctx: Ctx, rep: Report) -> None:
     wrapper_ok = False
     if scheds:
         par = getattr(scheds[0], "_parent", None)
-        wrapper_ok = isinstance(par, ast.Call) and norm(par.func) in ("asyncio.ensure_future", "ensure_future", "asyncio.create_task", "loop.create_task", "asyncio.run_coroutine_threadsafe")
+        schedulers = ("asyncio.ensure_future", "ensure_future", "asyncio.create_task", "loop.create_task", "asyncio.run_coroutine_threadsafe")
+        wrapper_ok = isinstance(par, ast.Call) and norm(par.func) in schedulers
+        if not wrapper_ok and isinstance(par, ast.Call):
+            # handed to a helper of the repository that schedules its argument on every path
+            for helper in [c for c in ctx.r.callees(dec, par) if isinstance(c, FuncInfo) and not c.module.external]:
+                hb = bind_call_args(par, helper.params, skip_self=helper.cls is not None)
+                pname = next((p for p, a in hb.items() if a is scheds[0]), None)
+                if pname is None:
+                    continue
+                hcfg = ctx.cfg(helper)
+                snodes = []
+                for n in own_nodes(helper.node):
+                    if isinstance(n, ast.Call) and (norm(n.func) in schedulers or (isinstance(n.func, ast.Attribute) and n.func.attr in ("create_task", "ensure_future"))) and any(isinstance(a, ast.Name) and a.id == pname for a in n.args):
+                        cn = cfg_node_of(hcfg, n)
+                        if cn is not None:
+                            snodes.append(cn)
+                wrapper_ok = bool(snodes) and hcfg.must_pass(hcfg.entry, [hcfg.exit], snodes)
+    # ---- R7: what reaches the callback was decoded (PDUs decode lazily) and is a notification
+    if scheds and trap_name is not None:
+        dcfg = ctx.cfg(dec)
+        snode = cfg_node_of(dcfg, scheds[0])
+        forcing = []
+        for cn in dcfg.nodes:
+            if cn.ast is None or cn is snode:
+                continue
+            for sub in ast.walk(cn.ast):
+                if isinstance(sub, ast.Attribute) and sub.attr in ("value", "pyvalue") and isinstance(sub.value, ast.Name) and sub.value.id == trap_name and isinstance(sub.ctx, ast.Load):
+                    forcing.append(cn)
+        forced = snode is not None and bool(forcing) and dcfg.must_pass(dcfg.entry, [snode], forcing)
+        rep.check(forced, "C19-R7", dec.site(scheds[0]), "the lazily decoded PDU is evaluated (its .value read) on every path before the callback is scheduled: malformed content raises here instead of being delivered", "" if forced else f"no read of {trap_name}.value dominates the scheduling of the callback", key=f"{dec.key}|lazy-pdu-delivered")
+        notif = [c for c in (ctx.u.classes.get("puresnmp.pdu:Trap"), ctx.u.classes.get("puresnmp.pdu:InformRequest")) if c is not None]
+
+        def not_a_notification(expr: ast.expr) -> Optional[bool]:
+            if isinstance(expr, ast.Call) and isinstance(expr.func, ast.Name) and expr.func.id == "isinstance" and len(expr.args) == 2 and isinstance(expr.args[0], ast.Name) and expr.args[0].id == trap_name:
+                classes = expr.args[1].elts if isinstance(expr.args[1], ast.Tuple) else [expr.args[1]]
+                resolved = [ctx.r.resolve_class(dec.module, c) for c in classes]
+                if all(r is not None and any(ctx.r.is_subclass(r, n_) for n_ in notif) for r in resolved):
+                    return False  # the decoded object is something else (a GetResponse, a bare INTEGER)
+            return None
+
+        from ..engine.patterns import simulate as _sim
+
+        start = cfg_node_of(dcfg, md)
+        outs_ = _sim(dcfg, not_a_notification, start=start) if start is not None else []
+        tested = any(isinstance(n, ast.Call) and not_a_notification(n) is False for n in own_nodes(dec.node))
+        refused = tested and bool(outs_) and all(o.kind == "raise" for o in outs_)
+        rep.check(refused, "C19-R7", dec.site(md), "an object that is not a notification PDU (Trap / InformRequest) is refused, never handed to the callback", "" if refused else ("no isinstance test of the decoded object against the notification classes" if not tested else f"outcomes: {outs_}"[:200]), key=f"{dec.key}|non-notification-delivered")
     rep.check(ok_once and wrapper_ok, "C19-R3", dec.site(scheds[0]) if scheds else dec.site(), "the user callback is scheduled on the loop exactly once per datagram", f"{[norm(s) for s in scheds]}", key=f"{dec.key}|callback-count")
     if not scheds or trap_name is None:
         rep.violated("C19-R3", dec.site(), "the callback receives the decoded trap", "no callback call / decoded trap not bound to a name", key=f"{dec.key}|callback-arg")
